@@ -34,12 +34,14 @@ LDLIBS   := -lstdc++fs -ldl
 
 REPO_SRCS := $(shell find $(REPO_ABS)/src -name '*.cpp' | sort)
 REPO_OBJS := $(patsubst $(REPO_ABS)/src/%.cpp,$(BUILD)/repo/%.o,$(REPO_SRCS))
-SIM_SRCS  := $(shell find sim -name '*.cpp' | sort)
+SIM_SRCS  := $(shell find sim -name '*.cpp' -not -path 'sim/premain/*' | sort)
 SIM_OBJS  := $(patsubst sim/%.cpp,$(BUILD)/sim/%.o,$(SIM_SRCS))
+# linked FIRST: its static initialisers run before those of the library's translation units
+PRE_OBJS  := $(BUILD)/sim/premain/premain.o
 
 all: $(BUILD)/simrun
 
-$(BUILD)/simrun: $(REPO_OBJS) $(SIM_OBJS)
+$(BUILD)/simrun: $(PRE_OBJS) $(REPO_OBJS) $(SIM_OBJS)
 	$(CXX) $(LDFLAGS) -rdynamic -o $@ $^ $(LDLIBS)
 
 $(BUILD)/repo/%.o: $(REPO_ABS)/src/%.cpp
@@ -56,6 +58,6 @@ print-build:
 clean:
 	rm -rf build
 
--include $(REPO_OBJS:.o=.d) $(SIM_OBJS:.o=.d)
+-include $(REPO_OBJS:.o=.d) $(SIM_OBJS:.o=.d) $(PRE_OBJS:.o=.d)
 
 .PHONY: all clean print-build
